@@ -243,8 +243,27 @@ class Env:
 
 class PK(tuple):
     """pattern key that also remembers the names bound at each position of a tuple-struct / struct pattern
-    (compares and hashes like the plain tuple)"""
+    (compares and hashes like the plain tuple) and the refutable sub-patterns of its fields (`Normal { captured: Some(v), .. }`)"""
     binds = None
+    sub = None
+
+
+class Undecided(Exception):
+    pass
+
+
+def _refutable(p):
+    """can this (sub-)pattern fail to match? (bindings, wildcards and references to them cannot)"""
+    k = p.get("k")
+    if k in ("PWild", "PMissing"):
+        return False
+    if k == "PBind":
+        return bool(p.get("sub")) and _refutable(p["sub"])
+    if k == "PRef":
+        return _refutable(p["pat"])
+    if k == "PTuple":
+        return any(_refutable(x) for x in p.get("pats") or ())
+    return True
 
 
 def _pk(t, binds):
@@ -270,11 +289,15 @@ def pat_key(p, facts=None):
     if k == "PTupleStruct":
         to = p["to"]
         binds = tuple((x.get("name") if x.get("k") == "PBind" and not x.get("sub") else None) for x in p.get("pats") or ())
-        return _pk(("variant", to.get("ctor_of") or to.get("path")), binds)
+        r = _pk(("variant", to.get("ctor_of") or to.get("path")), binds)
+        r.sub = {str(i): pat_key(x, facts) for i, x in enumerate(p.get("pats") or ()) if _refutable(x)}
+        return r
     if k == "PStruct":
         to = p["to"]
         binds = {f["name"]: (f["pat"].get("name") if f["pat"].get("k") == "PBind" and not f["pat"].get("sub") else None) for f in p.get("fields") or ()}
-        return _pk(("variant", to.get("ctor_of") or to.get("path")), binds)
+        r = _pk(("variant", to.get("ctor_of") or to.get("path")), binds)
+        r.sub = {f["name"]: pat_key(f["pat"], facts) for f in p.get("fields") or () if _refutable(f["pat"])}
+        return r
     if k == "POr":
         return ("or",) + tuple(pat_key(x, facts) for x in p["pats"])
     if k == "PRange":
@@ -775,6 +798,10 @@ def subst(t, m):
         return t          # a pattern key binds names, it mentions none
     if t in m:
         return m[t]
+    if t[:1] == ("closure",) and len(t) == 3 and isinstance(t[1], tuple):
+        # the closure's own parameters shadow outer names inside its body
+        inner = {k: v for k, v in m.items() if not (isinstance(k, tuple) and len(k) == 2 and k[0] == "var" and k[1] in t[1])}
+        return ("closure", t[1], subst(t[2], inner) if inner else t[2])
     return tuple(subst(x, m) if isinstance(x, tuple) else x for x in t)
 
 
@@ -924,7 +951,9 @@ class Exec(Sym):
         if k == "MethodCall" and (callee_of(e0) or "").endswith(("String::push", "String::push_str")):
             self.stmt(e0, d)
             return ("unit",)
-        if k == "Loop" and self.tolerant:
+        if k == "Loop":
+            if not self.tolerant:
+                raise Unsupported("loop")        # never skip a loop silently: its effects are part of the summary
             self.havoc_loop(e0)
             return ("unit",)
         if k == "MethodCall" and (callee_of(e0) in self.setters or callee_of(e0) in self.recorders):
@@ -1217,8 +1246,13 @@ def summarize_effects(fn, facts=None):
 
 def summarize(fn, facts=None):
     """Normal form of the function's return value; raises Unsupported on loops/early returns."""
-    ex = Exec(fn["hir"], facts)
-    return ex.run()
+    try:
+        return Exec(fn["hir"], facts).run()
+    except Unsupported:
+        # `for x in [a, b] { .. }` over a short literal array is the body written out once per element
+        from . import inline as _inl
+        h2 = _inl.unroll_literal_loops(fn["hir"], F=facts)
+        return Exec(h2, facts).run()
 
 
 CHAR_FNS = {
@@ -1402,7 +1436,10 @@ def fold(t, assume, discr=None, helpers=None, evalcalls=None):
         if h == "let" and len(t) >= 3:
             sc = f(t[2])
             if sc[0] in ("variant", "lit", "struct", "ctor", "pos") or _decided_tuple(sc):
-                return ("lit", _pat_matches(t[1], sc))
+                try:
+                    return ("lit", _pat_matches(t[1], sc))
+                except Undecided:
+                    pass
             return ("let", t[1], sc) + tuple(t[3:])
         if h == "if":
             c = f(t[1])
@@ -1417,8 +1454,11 @@ def fold(t, assume, discr=None, helpers=None, evalcalls=None):
                 key = sc[1] if sc[0] != "struct" else sc[1]
                 arms_ = list(t[2])
                 for i_, (pk_, g, body) in enumerate(arms_):
-                    if not _pat_matches(pk_, sc):
-                        continue
+                    try:
+                        if not _pat_matches(pk_, sc):
+                            continue
+                    except Undecided:
+                        return ("match", sc, tuple((p, g_, f(b)) for p, g_, b in arms_[i_:]))
                     binds = getattr(pk_, "binds", None)
                     m_ = {}
                     if sc[0] == "ctor" and isinstance(binds, tuple) and len(binds) == len(sc[2]):
@@ -1683,7 +1723,20 @@ def _pat_matches(pk_, sc):
         if pk_[0] == "or":
             return any(_pat_matches(p, sc) for p in pk_[1:])
         if pk_[0] == "variant" and sc[0] in ("variant", "struct", "ctor"):
-            return pk_[1] == sc[1]
+            if pk_[1] != sc[1]:
+                return False
+            for fld, spk in (getattr(pk_, "sub", None) or {}).items():
+                # a refutable sub-pattern of a field: the field's value decides
+                val = None
+                if sc[0] == "struct":
+                    val = dict(sc[2]).get(fld)
+                elif sc[0] == "ctor" and fld.isdigit() and int(fld) < len(sc[2]):
+                    val = sc[2][int(fld)]
+                if val is None or not (val[0] in ("variant", "lit", "struct", "ctor", "pos") or _decided_tuple(val)):
+                    raise Undecided()
+                if not _pat_matches(spk, val):
+                    return False
+            return True
         if pk_[0] == "lit" and sc[0] == "lit":
             return pk_[1] == sc[1]
         if pk_[0] == "pos" and sc[0] == "pos":
